@@ -768,7 +768,7 @@ def run(rep):
     rep.floor("R-C03-history", 2)
     rep.floor("R-C03-subindex", 2)
     rep.floor("R-C03-fft-capacity", 5)
-    rep.floor("R-C03-panic-sites", 21)
+    rep.floor("R-C03-panic-sites", 16)     # 2x on the reviewed tree; the five debug_asserts of the process bodies may legitimately go
     rep.floor("R-C03-cpu-guard", 4 + 1 + 3 * (4 + 1 + 1) + 6)
     rep.floor("R-C03-alloc", 4)
     rep.floor("R-C03-validate-exact", 2)
